@@ -26,6 +26,7 @@ type KnownFinding struct {
 	ID       string `json:"id"`
 	Match    string `json:"match"`
 	What     string `json:"what"`
+	Part     string `json:"part,omitempty"` // if set: only this part of the property's check reports it
 	re       *regexp.Regexp
 }
 
@@ -119,7 +120,7 @@ func (r *Run) loadKnownFile(path string) {
 		return
 	}
 	for _, k := range kf.Known {
-		if k.Property != r.ID {
+		if k.Property != r.ID || (k.Part != "" && k.Part != r.Part) {
 			continue
 		}
 		re, err := regexp.Compile(k.Match)
@@ -293,10 +294,10 @@ func (r *Run) Finish() int {
 	b, _ := json.MarshalIndent(ev, "", " ")
 	_ = os.WriteFile(filepath.Join(dir, r.ID+"."+r.Part+".json"), b, 0o644)
 
+	// every listed finding is reported on every run (it is a property of the tree, not of this
+	// run's sample); the count says how often this run's workload reproduced it
 	for _, k := range r.known {
-		if n := r.knownHits[k.ID]; n > 0 {
-			fmt.Printf("KNOWN-FINDING: property=%s %s (%s; observed %d times)\n", r.ID, k.What, k.ID, n)
-		}
+		fmt.Printf("KNOWN-FINDING: property=%s %s (%s; reproduced %d times in this run)\n", r.ID, k.What, k.ID, r.knownHits[k.ID])
 	}
 	for sg, n := range r.sigCounts {
 		fmt.Printf("VIOLATION-SIGNATURE x%d: %s\n", n, sg)
